@@ -1479,7 +1479,7 @@ class Element(Mapping[str, Attribute]):
         # This is a (attr, index, uuid, line_num) tuple.
         fixups: list[tuple[Attribute, Optional[int], UUID, int]] = []
         # Ensure these reuse the same objects.
-        stubs: dict[UUID, StubElement] = collections.defaultdict(StubElement.stub)
+        stubs: dict[UUID, StubElement] = {}
 
         elements = []
 
@@ -1580,7 +1580,7 @@ class Element(Mapping[str, Attribute]):
                                         raise tok.error('Invalid UUID "{}"!', uuid_str) from exc
                                     fixups.append((attr, len(array), uuid, tok.line_num))
                                     # If UUID is present, this stub will be overwritten later.
-                                    array.append(stubs[uuid])
+                                    array.append(stubs.setdefault(uuid, StubElement.stub(uuid)))
                                 else:
                                     array.append(NULL)
                             else:
@@ -1611,7 +1611,7 @@ class Element(Mapping[str, Attribute]):
                         uuid = UUID(uuid_str)
                     except ValueError as exc:
                         raise tok.error('Invalid UUID "{}"!', uuid_str) from exc
-                    attr.val_elem = stubs[uuid]
+                    attr.val_elem = stubs.setdefault(uuid, StubElement.stub(uuid))
                     fixups.append((attr, None, uuid, tok.line_num))
                     # If the element is present, the stub value  will be overwritten after.
                 # else: If blank, it's a NULL.
